@@ -58,7 +58,9 @@ fn queries(tier: Tier) -> Vec<String> {
     // several results in one query: every ordered pair and triple over a plain number, quantities
     // with and without a numerator part, a pluralising unit, an error (what one result prints must
     // not depend on its neighbours)
-    let elems = ["2", "3 km", "5 / 1 s", "1 m + 1 s", "0.5 decade", "1"];
+    // (two kinds of failed lookups among them: a phrase the search backend rejects, and one that
+    // matches nothing)
+    let elems = ["2", "3 km", "5 / 1 s", "1 m + 1 s", "0.5 decade", "1", "population of OR", "zzzqq nosuchfact"];
     for a in elems {
         for b in elems {
             v.push(format!("({a}) ({b})"));
@@ -73,6 +75,14 @@ fn queries(tier: Tier) -> Vec<String> {
             v.push(format!("3 {u}^{n}"));
             v.push(format!("1 {u}^-{n}"));
             v.push(format!("2 mol*{u}^{n}"));
+            v.push(format!("2 mol/{u}^{n}"));
+        }
+    }
+    // ... and of every length a power can have, up to the largest one
+    for u in ["m", "s"] {
+        for n in ["1234", "12345", "123456", "1234567", "12345678", "123456789", "1000000000", "1234567890", "2147483647"] {
+            v.push(format!("3 {u}^{n}"));
+            v.push(format!("1 {u}^-{n}"));
             v.push(format!("2 mol/{u}^{n}"));
         }
     }
@@ -142,7 +152,67 @@ fn blank_expected(has_numerator: bool, unit_text: &str) -> bool {
     has_numerator || !(unit_text.is_empty() || unit_text.starts_with('/'))
 }
 
+/// `(a) (b) (c)` -> [a, b, c]: a query that is nothing but two or more parenthesised groups
+/// separated by single blanks.
+fn juxtaposed_parts(q: &str) -> Option<Vec<String>> {
+    let cs: Vec<char> = q.chars().collect();
+    let mut parts = Vec::new();
+    let mut i = 0;
+    while i < cs.len() {
+        if cs[i] != '(' {
+            return None;
+        }
+        let (mut depth, mut j) = (0i32, i);
+        loop {
+            if j >= cs.len() {
+                return None;
+            }
+            if cs[j] == '(' {
+                depth += 1;
+            } else if cs[j] == ')' {
+                depth -= 1;
+                if depth == 0 {
+                    break;
+                }
+            }
+            j += 1;
+        }
+        parts.push(cs[i + 1..j].iter().collect::<String>());
+        i = j + 1;
+        if i < cs.len() {
+            if cs[i] != ' ' {
+                return None;
+            }
+            i += 1;
+            if i >= cs.len() {
+                return None;
+            }
+        }
+    }
+    if parts.len() >= 2 {
+        Some(parts)
+    } else {
+        None
+    }
+}
+
+/// "Errors do not abort the remaining results": for a query made of juxtaposed groups, what is
+/// expected is what each group gives when it is asked alone, one after the other - not what the
+/// library's iterator chooses to yield for the whole query.
 fn expected(db: &anything::Db, q: &str, exact: bool) -> Option<(Vec<Item>, Vec<Option<LineInfo>>)> {
+    if let Some(parts) = juxtaposed_parts(q) {
+        let (mut out, mut infos) = (Vec::new(), Vec::new());
+        for p in parts {
+            let (o, i) = expected_whole(db, &p, exact)?;
+            out.extend(o);
+            infos.extend(i);
+        }
+        return Some((out, infos));
+    }
+    expected_whole(db, q, exact)
+}
+
+fn expected_whole(db: &anything::Db, q: &str, exact: bool) -> Option<(Vec<Item>, Vec<Option<LineInfo>>)> {
     let parsed = anything::parse(q).ok()?;
     let mut d = Vec::new();
     let mut out = Vec::new();
